@@ -93,6 +93,7 @@ impl Pol {
             pending_flushes: self.pend_f.iter().copied().collect::<BTreeSet<_>>(),
             deliver_on_flush: false,
             gone_is_write_zero: false,
+            read_quota: None,
             cut_after: self.cut,
             flips: self.flips.clone(),
         }
